@@ -41,7 +41,10 @@ R1  order preservation.  (a) `_check_merge_arguments` returns, on every return p
     are images of that returned list (relocation: of all its elements, in any order).  (c) `_open_merged_store`
     derives file paths, datasets, dimensions, variables, every group list and the cumulative size table from
     `metadata['stores']` through order-preserving images only; the size table is the running sum (accumulate / cumsum /
-    hand-written) of the lengths of exactly the dimensions stored next to it.
+    hand-written) of the lengths of exactly the dimensions stored next to it.  The document may be kept in a helper
+    object: a value made by a constructor or by a class / static method or module-level function annotated `-> K` has
+    class K, and a read-only property or a computing method of K whose body is single assignments and one `return E`
+    (`metadata.store_names`, `metadata.store_names()`) is E over that object.
 R2  refusals present (their position before any file-system effect is C10-R2), by bounded interpretation of `merge`:
     every sequence of up to three inputs whose field-set names are not all equal reaches a raise (subset, superset and
     same-size-different-names cases, in every position), and so does every sequence that mixes identified and
@@ -55,7 +58,10 @@ R3  locate arithmetic, per path of `_load_trajectory` to a record read under "si
     is bisect_left(table, index + 1) / bisect_right(table, index) of the table of the *same* file set whose groups
     are read, the position is bounded before use, and the record index is the requested index relative to the located
     file (index - table[file]; index - table[file] + len(dim[file]); index - table[file - 1] behind file > 0; the index
-    itself behind file == 0).
+    itself behind file == 0).  The paths go through helpers and through a computing query method of the file-set object
+    (`files.locate(index)`) that hands (file, record index) back as a tuple, a NamedTuple or a plain `@dataclass` record,
+    or None for "no such trajectory": building a plain record is no effect, the record is not None, `K(a, b).f` is the
+    argument given for f (`K(a, b)[1]` for a NamedTuple).
 R4  the metadata records, per input, (the base name under which the input is moved into the output directory, the
     length of the store opened on that input) - as a pair or a NamedTuple; the relocation moves the input itself to
     <output>/<that name>.
@@ -85,7 +91,8 @@ from ..astutil import (MUTATING_METHODS, ancestors, arg_or_kw, assigned_names, c
                        walk_no_nested)
 from ..loader import parent
 from ..resolve import resolve_call, resolve_class_call
-from .c07 import Sym, SymUndecided, _base_id, _diff, _is_name, _nf, _strip, locate_paths
+from .c07 import (VOCAB_CLASSES, LocatePath, Sym, SymState, SymUndecided, _PURE_FUNCS, _PURE_METHODS, _PURE_ROOTS, _ann_to_class, _base_id,
+                  _diff, _is_name, _nf, _strip, canon_fact, find_member, locate_paths, mentions_heap)
 
 STORE = 'trajectories/store.py'
 ELEM = '__elem__'
@@ -161,14 +168,158 @@ def canon(e: ast.expr) -> str:
     return _strip(T().visit(copy.deepcopy(e)))
 
 
+def record_class(cls) -> bool:
+    """a plain record: `NamedTuple`, or a `@dataclass` whose construction only stores its arguments (no `__init__` /
+    `__new__` / `__post_init__`, no attribute hooks, no repository base class) - `K(a, b).f` is then the argument
+    given for f, and building one changes nothing"""
+    if cls is None or getattr(cls, 'bases', None):
+        return False
+    decs = [ast.unparse(d).split('(')[0].split('.')[-1] for d in cls.node.decorator_list]
+    nt = any(str(b).split('.')[-1].split('[')[0] == 'NamedTuple' for b in getattr(cls, 'base_exprs', []))
+    if not (nt or 'dataclass' in decs) or any(d != 'dataclass' for d in decs):
+        return False
+    if any(find_member(cls, n) is not None for n in ('__init__', '__new__', '__post_init__', '__getattr__',
+                                                     '__getattribute__', '__setattr__')):
+        return False
+    flds = cls.annotated_fields()
+    return bool(flds) and not any('ClassVar' in ast.unparse(a) or 'InitVar' in ast.unparse(a) for a in flds.values())
+
+
+def record_ctor_fields(prog, m, c: ast.AST):
+    """{field: argument expression} of the record construction `K(a, b, f=c)` (constant defaults filled in), else None"""
+    if not isinstance(c, ast.Call) or any(isinstance(a, ast.Starred) for a in c.args) or any(k.arg is None for k in c.keywords):
+        return None
+    cls = class_of(prog, m, c.func)
+    if not record_class(cls):
+        return None
+    fields = list(cls.annotated_fields())
+    if len(c.args) > len(fields):
+        return None
+    out = dict(zip(fields, c.args))
+    for k in c.keywords:
+        if k.arg not in fields or k.arg in out:
+            return None
+        out[k.arg] = k.value
+    for f, d in cls.class_assignments().items():
+        if f in fields and f not in out and isinstance(d, ast.Constant):
+            out[f] = d
+    return {f: out[f] for f in fields} if len(out) == len(fields) else None
+
+
+def fold_records(prog, m, e: ast.expr) -> ast.expr:
+    """`K(a, b).f` -> the argument given for field f (K a plain record class); `K(a, b)[1]` -> b (K a NamedTuple)"""
+    if not any(isinstance(x, (ast.Attribute, ast.Subscript)) and isinstance(x.value, ast.Call) for x in ast.walk(e)):
+        return e
+
+    class T(ast.NodeTransformer):
+        def visit_Attribute(self, n):
+            self.generic_visit(n)
+            if isinstance(n.value, ast.Call) and isinstance(n.ctx, ast.Load):
+                f = record_ctor_fields(prog, m, n.value)
+                if f is not None and n.attr in f:
+                    return copy.deepcopy(f[n.attr])
+            return n
+
+        def visit_Subscript(self, n):
+            self.generic_visit(n)
+            if isinstance(n.value, ast.Call) and isinstance(n.ctx, ast.Load) and isinstance(n.slice, ast.Constant) \
+                    and isinstance(n.slice.value, int) and not isinstance(n.slice.value, bool):
+                f = record_ctor_fields(prog, m, n.value)
+                cls = class_of(prog, m, n.value.func) if f is not None else None
+                if f is not None and -len(f) <= n.slice.value < len(f) \
+                        and not any(ast.unparse(d).split('(')[0].split('.')[-1] == 'dataclass' for d in cls.node.decorator_list):
+                    return copy.deepcopy(list(f.values())[n.slice.value])
+            return n
+    return T().visit(e)
+
+
+def computes_only(prog, fn) -> bool:
+    """a method that only computes (`c07._effect_free`), where building a plain record to hand the result back counts
+    as computing"""
+    for n in walk_no_nested(fn.node):
+        if isinstance(n, (ast.Attribute, ast.Subscript)) and isinstance(n.ctx, (ast.Store, ast.Del)):
+            return False
+        if isinstance(n, (ast.Global, ast.Nonlocal, ast.Yield, ast.YieldFrom, ast.Await, ast.With, ast.AsyncWith)):
+            return False
+        if isinstance(n, ast.Call):
+            name = call_name(n)
+            if not (name in _PURE_FUNCS or any(name == r or name.startswith(r + '.') for r in _PURE_ROOTS)
+                    or (isinstance(n.func, ast.Attribute) and n.func.attr in _PURE_METHODS)
+                    or record_class(class_of(prog, fn.module, n.func))):
+                return False
+    return True
+
+
 class _Sym(Sym):
     """symbolic paths that also go through the helpers the rule asks for (`enter(callee)`), wherever they are kept: a
     public function, a function of another module (what the construct a rule looks for is does not depend on the file
-    it was moved to)"""
+    it was moved to).  Results handed back in a plain record (`return Loc(file=f, rec=r)` … `loc.file`) are followed:
+    building the record is no effect, it is never None, and a field read of it is the argument given for the field.
+    A value made by an alternative constructor (`K.read(p)`, a class / static method annotated `-> K`) has class K, so
+    its single-expression properties are opened like those of any other helper object."""
     enter = None
+
+    def ev(self, e: ast.expr, st) -> ast.expr:
+        return fold_records(self.prog, self.rootfi.module, Sym.ev(self, e, st))
+
+    def truth(self, e: ast.expr, st):
+        r = Sym.truth(self, e, st)
+        if r is None:
+            _k, pol, ce = canon_fact(e, True)
+            if isinstance(ce, ast.Compare) and len(ce.ops) == 1 and isinstance(ce.ops[0], (ast.Is, ast.Eq)) \
+                    and isinstance(ce.comparators[0], ast.Constant) and ce.comparators[0].value is None \
+                    and record_ctor_fields(self.prog, self.rootfi.module, ce.left) is not None:
+                return False == pol         # noqa: E712  - a freshly built record is not None
+        return r
+
+    def _pure_call(self, c: ast.Call) -> bool:
+        return Sym._pure_call(self, c) or record_class(class_of(self.prog, self.fi.module, c.func))
+
+    def class_of(self, v: ast.AST):
+        c = Sym.class_of(self, v)
+        if c is None and isinstance(v, ast.Call) and isinstance(v.func, (ast.Attribute, ast.Name)):
+            key = 'alt:' + norm(v)
+            if key not in self._cls_memo:
+                k = meth = None
+                m = self.rootfi.module
+                if isinstance(v.func, ast.Name):
+                    # a module-level function annotated `-> K`
+                    try:
+                        meth = self.prog.resolve_name(m, v.func.id)
+                    except Exception:
+                        meth = None
+                    if not (hasattr(meth, 'node') and isinstance(meth.node, (ast.FunctionDef, ast.AsyncFunctionDef))
+                            and getattr(meth, 'cls', None) is None):
+                        meth = None
+                elif isinstance(v.func.value, (ast.Name, ast.Attribute)):
+                    owner = class_of(self.prog, m, v.func.value)
+                    meth = find_member(owner, v.func.attr) if owner is not None else None
+                    if meth is not None and not any(d.split('.')[-1] in ('classmethod', 'staticmethod')
+                                                    for d in meth.decorators()):
+                        meth = None
+                if meth is not None and meth.node.returns is not None and not isinstance(meth.node, ast.AsyncFunctionDef) \
+                        and not any(isinstance(x, (ast.Yield, ast.YieldFrom)) for x in walk_no_nested(meth.node)):
+                    k = _ann_to_class(self.prog, meth.module, meth.node.returns)
+                    if k is not None and (k is self.rootfi.cls or k.name in VOCAB_CLASSES):
+                        k = None
+                self._cls_memo[key] = k
+            c = self._cls_memo[key]
+        return c
 
     def _summarisable(self, c: ast.Call, *state):
         r = Sym._summarisable(self, c, *state)
+        if r is None and self.depth < 2 and isinstance(c.func, ast.Attribute) and state and state[0] is not None:
+            # a named query on a helper object that hands its result back in a record
+            try:
+                cls = self.class_of(self.ev(c.func.value, state[0].fork()))
+                meth = find_member(cls, c.func.attr)
+            except Exception:
+                meth = None
+            if meth is not None and meth is not self.fi and not meth.name.startswith('__') \
+                    and meth.name not in self.opaque and not meth.decorators() \
+                    and not any(isinstance(a, ast.Starred) for a in c.args) and not any(k.arg is None for k in c.keywords) \
+                    and computes_only(self.prog, meth):
+                return meth
         if r is not None or self.enter is None or self.depth >= 2:
             return r
         try:
@@ -184,6 +335,98 @@ class _Sym(Sym):
         if any(isinstance(a, ast.Starred) for a in c.args) or any(k.arg is None for k in c.keywords):
             return None
         return callee if self.enter(callee) else None
+
+    def _call(self, callee, c: ast.Call, st):
+        """`Sym._call`, with the helper walked by a Sym of this class (records, `enter`) - otherwise identical"""
+        a = callee.node.args
+        pos = [x.arg for x in a.posonlyargs + a.args]
+        defaults = dict(zip(reversed(pos), reversed(a.defaults)))
+        for k, d in zip(a.kwonlyargs, a.kw_defaults):
+            if d is not None:
+                defaults[k.arg] = d
+        names = pos + [x.arg for x in a.kwonlyargs]
+        bind: dict[str, ast.expr] = {}
+        decs = [d.split('.')[-1] for d in callee.decorators()]
+        same_recv = False
+        if callee.cls is not None and 'staticmethod' not in decs:
+            if not isinstance(c.func, ast.Attribute) or not pos:
+                return None
+            if callee.name in ('__init__', '__post_init__', '__new__'):
+                return None
+            rv = self.ev(c.func.value, st.fork())
+            if 'classmethod' not in decs:
+                same_recv = self.recv is not None and isinstance(c.func.value, ast.Name) \
+                    and c.func.value.id == self.recv == pos[0] and self.recv not in st.env
+            if not same_recv:
+                bind[pos[0]] = rv
+            pos = pos[1:]
+        if len(c.args) > len(pos) and not a.vararg:
+            return None
+        for p, x in zip(pos, c.args):
+            bind[p] = self.ev(x, st)
+        if a.vararg:
+            bind[a.vararg.arg] = ast.Tuple(elts=[self.ev(x, st) for x in c.args[len(pos):]], ctx=ast.Load())
+        extra = []
+        for k in c.keywords:
+            if k.arg in bind:
+                return None
+            if k.arg not in names:
+                if not a.kwarg:
+                    return None
+                extra.append((k.arg, self.ev(k.value, st)))
+                continue
+            bind[k.arg] = self.ev(k.value, st)
+        if a.kwarg:
+            bind[a.kwarg.arg] = ast.Dict(keys=[ast.Constant(value=k) for k, _ in extra], values=[v for _, v in extra])
+        for p in names:
+            if p not in bind:
+                if same_recv and p == self.recv and self.enter_methods:
+                    continue
+                if p not in defaults:
+                    return None
+                bind[p] = copy.deepcopy(defaults[p])
+        sub = type(self)(self.prog, callee, self.depth + 1, parent=self, cap=64)
+        sub.enter = self.enter
+        init = SymState(bind, st.facts, st.epoch, st.clob, st.trace)
+        if same_recv and sub.recv is not None:
+            for k, v in st.env.items():
+                if k.startswith(self.recv + '.'):
+                    init.env[sub.recv + k[len(self.recv):]] = v
+        try:
+            sub.run(init=init)
+        except SymUndecided:
+            return None
+        if len(sub.returns) > 16:
+            return None
+        out = []
+        for rst, rv, _ in sub.returns:
+            new = SymState(st.env, rst.facts, rst.epoch, rst.clob, rst.trace)
+            gone = {_base_id(r) for r in rst.clob} - {_base_id(r) for r in st.clob}
+            if '<locals>' not in callee.qualname:
+                mine = set()
+                for r in gone:
+                    if same_recv and sub.recv is not None and r == sub.recv:
+                        mine.add(self.recv)
+                    elif r in bind:
+                        mine |= {_base_id(x.id) for x in ast.walk(bind[r]) if isinstance(x, ast.Name)} & self._locals
+                gone = mine
+                new.clob = set(st.clob) | gone
+                new.epoch = dict(st.epoch)
+                for r in gone:
+                    new.epoch[r] = new.epoch.get(r, 0) + 1
+            if gone:
+                for k, v in list(new.env.items()):
+                    if any(mentions_heap(v, r) for r in gone) or ('.' in k and k.split('.')[0] in gone):
+                        new.env[k] = self._fresh(k, c)
+            if same_recv and sub.recv is not None:
+                for k, v in rst.env.items():
+                    if k.startswith(sub.recv + '.'):
+                        new.env[self.recv + k[len(sub.recv):]] = v
+            elif sub.recv is not None and any(k.startswith(sub.recv + '.') for k in rst.env):
+                self.clobber(new, {x.id for x in ast.walk(bind.get(callee.params[0], ast.Name(id=sub.recv)))
+                                   if isinstance(x, ast.Name)}, c)
+            out.append((new, rv if rv is not None else ast.Constant(value=None)))
+        return out
 
 
 def class_of(prog, m, func: ast.expr):
@@ -288,6 +531,55 @@ class Prov:
         bound[meth.params[0]] = f.value
         return self.simp(subst(body[0].value, bound))
 
+    def _member_value(self, e: ast.expr):
+        """`obj.prop` / `obj.query(args)` for a property / method of a helper class (the class of obj known from
+        constructors and annotations) that only computes and whose body is single assignments of locals followed by one
+        `return E`: E over obj and the arguments, else None"""
+        call = e if isinstance(e, ast.Call) else None
+        at = call.func if call is not None else e
+        if not isinstance(at, ast.Attribute) or not isinstance(at.ctx, ast.Load):
+            return None
+        if call is not None and (any(isinstance(a, ast.Starred) for a in call.args) or any(k.arg is None for k in call.keywords)):
+            return None
+        if getattr(self, '_clsym', None) is None:
+            self._clsym = _Sym(self.prog, self.fn)
+        try:
+            cls = self._clsym.class_of(at.value)
+            meth = find_member(cls, at.attr)
+        except Exception:
+            return None
+        if meth is None or not meth.params or meth.name.startswith('__') or not computes_only(self.prog, meth):
+            return None
+        decs = [d.split('.')[-1].split('(')[0] for d in meth.decorators()]
+        if decs != ([] if call is not None else ['property']):
+            return None
+        body = [b for b in meth.node.body if not (isinstance(b, ast.Expr) and isinstance(b.value, ast.Constant))]
+        if not body or not isinstance(body[-1], ast.Return) or body[-1].value is None:
+            return None
+        bound = {}
+        if call is not None:
+            bound = _bind_call(meth, call)
+            if bound is None:
+                return None
+            bound = dict(bound)
+        bound[meth.params[0]] = at.value
+        env = dict(bound)
+        for b in body[:-1]:
+            if isinstance(b, ast.AnnAssign) and b.value is not None and isinstance(b.target, ast.Name):
+                name, val = b.target.id, b.value
+            elif isinstance(b, ast.Assign) and len(b.targets) == 1 and isinstance(b.targets[0], ast.Name):
+                name, val = b.targets[0].id, b.value
+            else:
+                return None
+            if name in env or any(isinstance(x, (ast.NamedExpr, ast.Lambda)) for x in ast.walk(val)):
+                return None         # a parameter / local bound twice
+            env[name] = subst(val, env)
+        # names bound inside E (comprehension variables) must not be among the substituted ones
+        if any(isinstance(x, ast.Name) and isinstance(x.ctx, ast.Store) and x.id in env
+                                              for x in ast.walk(body[-1].value)):
+            return None
+        return self.simp(subst(body[-1].value, env))
+
     # -- sequences
     def seq(self, e: ast.expr, depth: int = 0):
         if depth > 12:
@@ -341,6 +633,9 @@ class Prov:
             opened = self._record_method(e)
             if opened is not None:
                 return self.seq(opened, depth + 1)
+        opened = self._member_value(e)
+        if opened is not None:
+            return self.seq(opened, depth + 1)
         if isinstance(e, ast.Subscript) and isinstance(e.slice, ast.Slice):
             sl = e.slice
             if sl.lower is None and sl.upper is None and sl.step is None:
@@ -1242,12 +1537,45 @@ def rule_mixed_refused(ctx, prog, m, rule: str) -> bool:
     return bool(verdict)
 
 
+def record_locate_paths(ctx, rule: str, prog, m):
+    """`c07.locate_paths` (paths of _load_trajectory to every read of a record), also through a query method of the
+    file-set object that hands (file, record index) back in a plain record, a NamedTuple or a tuple, or None for "no
+    such trajectory" (`_Sym`)"""
+    load = m.func('TrajectoryStore._load_trajectory')
+    rd = m.func('TrajectoryStore._read_from_nc_var')
+    pn = rd.params[1:] if rd.params and rd.params[0] == 'self' else rd.params
+
+    def is_read(n):
+        return isinstance(n, ast.Call) and isinstance(n.func, ast.Attribute) and n.func.attr == rd.name
+
+    try:
+        sym = _Sym(prog, load).run(is_read)
+    except SymUndecided as e:
+        ctx.undecided(rule, load, 'locate paths', str(e))
+    out = []
+    for h in sym.hits:
+        a_var, a_idx = arg_or_kw(h.node, 0, pn[0]), arg_or_kw(h.node, 1, pn[1])
+        if a_var is None or a_idx is None:
+            ctx.undecided(rule, load, norm(h.node)[:60], 'cannot tell the variable / record arguments of the read')
+        var, rec = h.ev(a_var), h.ev(a_idx)
+        chain = None
+        for x in ast.walk(var):
+            if isinstance(x, ast.Subscript) and isinstance(x.value, ast.Subscript) \
+                    and isinstance(x.value.value, ast.Attribute) and x.value.value.attr == 'groups':
+                chain = x
+                break
+        if chain is None:
+            ctx.undecided(rule, load, _strip(var)[:80], 'the variable read is not taken from <files>.groups[<field set>][<file>]')
+        out.append(LocatePath(h, var, rec, chain.value.value.value, chain.value.slice, chain.slice))
+    return out, load
+
+
 def rule_locate_arith(ctx, prog, m):
     """C09-R3, decided on the symbolic paths of _load_trajectory to each record read (through guard clauses, tuple
     returns and helpers): under `size table exists` the file position is the bisect of *that* table for the requested
     index, it is bounded before use, the group read belongs to the located file of the same file set, and the record
     index is the requested index relative to that file."""
-    paths, ld = locate_paths(ctx, 'C09-R3', prog, m)
+    paths, ld = record_locate_paths(ctx, 'C09-R3', prog, m)
     idx = ld.params[1]
     n_table = 0
     for p in paths:
